@@ -204,8 +204,85 @@ func linearHelpers(c *Ctx) map[*ssa.Function]string {
 				}
 			}
 		}
+		// methods of the URL's own collections whose cost is proportional to a component that grows with the input
+		// (serialising the path, the parameter list, the whole URL), and what calls them
+		for _, f := range c.P.ModFns {
+			switch namedOf(recvType(f)) {
+			case "path", "Url", "SearchParams":
+			default:
+				continue
+			}
+			if f.Parent() != nil {
+				continue
+			}
+			for _, l := range loopsOf(f) {
+				if !l.ConstBounded && loopWalksReceiverField(f, l) {
+					out[f] = "walks a URL component whose size grows with the input"
+				}
+			}
+		}
+		for round := 0; round < 3; round++ {
+			for _, f := range c.P.ModFns {
+				if _, done := out[f]; done || f.Parent() != nil {
+					continue
+				}
+				switch namedOf(recvType(f)) {
+				case "path", "Url", "SearchParams":
+				default:
+					continue
+				}
+				for _, b := range f.Blocks {
+					for _, ins := range b.Instrs {
+						if call, ok := ins.(*ssa.Call); ok {
+							if cl := call.Common().StaticCallee(); cl != nil {
+								if why, lin := out[cl]; lin && namedOf(recvType(cl)) != "inputString" {
+									out[f] = "calls " + cl.Name() + ", which " + why
+								}
+							}
+						}
+					}
+				}
+			}
+		}
 		return out
 	}).(map[*ssa.Function]string)
+}
+
+// loopWalksReceiverField: the loop indexes (or takes the length of) a slice loaded from a field of the receiver.
+func loopWalksReceiverField(f *ssa.Function, l *ssaLoop) bool {
+	if len(f.Params) == 0 {
+		return false
+	}
+	recv := ssa.Value(f.Params[0])
+	fromRecv := func(v ssa.Value) bool {
+		ld, ok := v.(*ssa.UnOp)
+		if !ok || ld.Op != token.MUL {
+			return false
+		}
+		fa, ok := ld.X.(*ssa.FieldAddr)
+		if !ok {
+			return false
+		}
+		if _, isSlice := ld.Type().Underlying().(*types.Slice); !isSlice {
+			return false
+		}
+		return fa.X == recv
+	}
+	for b := range l.Blocks {
+		for _, ins := range b.Instrs {
+			switch x := ins.(type) {
+			case *ssa.IndexAddr:
+				if fromRecv(x.X) {
+					return true
+				}
+			case *ssa.Call:
+				if bi, ok := x.Common().Value.(*ssa.Builtin); ok && bi.Name() == "len" && fromRecv(x.Common().Args[0]) {
+					return true
+				}
+			}
+		}
+	}
+	return false
 }
 
 func sameLocation(a, b ssa.Value) bool {
